@@ -92,7 +92,7 @@ class Dumper:
             return "(Bool%s %s)" % (at, b(e.b))
         if isinstance(e, A.Int):
             return "(Int%s %d)" % (at, e.n)
-        if isinstance(e, A.Str):
+        if isinstance(e, (A.Str, A.StrLit)):
             return "(Str%s %s)" % (at, _hex(e.s))
         if isinstance(e, A.IStr):
             decoded, slots = self.istr(e)
